@@ -43,6 +43,7 @@ def run(prog, rep, tier, repo):
     d5_scale(prog, rep)
     d6_loops(prog, rep)
     d8_regimes(prog, rep)
+    d9_param_truncation(prog, rep)
     d7_integral(prog, rep)
     # ---- D9 ln(Gamma(x)) with an unbounded argument: Gamma overflows above 171.6 while its logarithm does not; an acceptance test
     # `.. <= .. - gamma(k + 1).ln()` is then always false for k >= 171 and those candidates can never be returned
@@ -736,6 +737,47 @@ def helper_regimes(prog, hk):
                 out[ai] = (region, 'folds %s into %s (identity for %s in %r) but still computes with the raw parameter: %s' % (
                     f.names.get(ai), show(loc), f.names.get(ai), region, raw[0]))
     return out
+
+
+def d9_param_truncation(prog, rep):
+    """a sampler draws from the law of the *current real-valued* parameters: a float field of the distribution (or a float parameter of a
+    sampling helper that receives one) converted to an integer before it reaches a constructor or helper argument drops its fractional
+    part, so the draws follow another member of the family (T with dof 2.5 sampled as dof 2); a parameter in (0, 1) even becomes 0"""
+    pdb = prog.pdb
+    n = 0
+    for d in c02.ALL:
+        path = DS + d
+        sk = '<%s as %sDistribution>::sample' % (path, DS)
+        f0 = prog.func(sk)
+        if f0 is None:
+            continue
+        n += 1
+        key = 'param-truncation:%s' % d.split('::')[1]
+        bad = []
+        for kk in sorted(prog.closure(sk)):
+            f = prog.func(kk)
+            if f is None or not kk.startswith(('<' + DS, DS)):
+                continue
+            rep.touch(kk)
+            me = ('arg', 1, f.names.get(1))
+            fparams = {('arg', i + 1, f.names.get(i + 1)) for i in range(f.body.arg_count) if f.body.local_ty(i + 1) in ('f64', 'f32')}
+            for c in f.calls():
+                if not (c.path and c.path in pdb.bodies):
+                    continue
+                for a in c.args:
+                    for z in subterms(a):
+                        if tag(z) == 'cast' and z[1] == 'FloatToInt':
+                            src = z[2]
+                            whole = (tag(src) == 'field' and src[1] == me and kk == sk) or (src in fparams and kk != sk)
+                            if whole:
+                                bad.append((kk, c, z))
+        if bad:
+            kk, c, z = bad[0]
+            rep.viol('param-truncation', key, '%s passes %s to %s: the real-valued parameter is truncated to an integer, so the draws follow the law for '
+                     'the truncated value (and a value below 1 becomes 0)' % (short(kk), show(z)[:40], short(c.path)), site_of(c.span))
+        else:
+            rep.ok('param-truncation', key, 'no float parameter is truncated on its way into a constructor or sampling helper')
+    rep.floor('param-truncation', 13, 'sample bodies')
 
 
 def d8_regimes(prog, rep):
